@@ -688,11 +688,18 @@ Section ContractWith.
     eapply nindex_inj; eauto.
   Qed.
 
-  Theorem contract_with_correct v am : contract_with E n data = Some (v, am) ->
-      am = amap /\ fst (to_full_tensor v am) = shp /\
-      forall x, in_range shp x -> snd (to_full_tensor v am) x = defining_sum n data x.
+  (** what contract_with evaluates to: one einsum over the tensors and the ones-vectors *)
+  Lemma contract_with_struct : exists onesops,
+    (forall op, In op onesops ->
+       exists j b k, op = (ones (nth k shp O), [j]) /\ nth_error vb k = Some b /\ lab b = j) /\
+    (forall j, In j out ->
+       (exists t, In t ts /\ In j (map lab (t_bids t))) \/ (exists op, In op onesops /\ snd op = [j])) /\
+    contract_with E n data =
+      match ops data lab ts onesops with
+      | [] => None
+      | _ :: _ => Some (einsum_sem (ops data lab ts onesops) out, amap)
+      end.
   Proof.
-    intros HC.
     set (onesops := concat (map ones_for out)).
     assert (OF : forall op, In op onesops ->
                  exists j b k, op = (ones (nth k shp O), [j]) /\ nth_error vb k = Some b /\ lab b = j).
@@ -710,22 +717,38 @@ Section ContractWith.
         exists (ones (nth k shp O), [j]). split; [|reflexivity].
         unfold onesops. apply in_concat. exists (ones_for j). split; [apply in_map; assumption|].
         unfold ones_for. rewrite Ex, Hp, Hk. left. reflexivity. }
-    assert (EC : contract_with E n data =
-                 match ops data lab ts onesops with
-                 | [] => None
-                 | _ :: _ => Some (einsum_sem (ops data lab ts onesops) out, amap)
-                 end).
-    { unfold contract_with. unfold shape. rewrite Hvt. cbn [option_map]. rewrite E_tids.
-      rewrite E_out.
-      rewrite (omap_total _ ones_for).
-      2:{ intros j Hj. unfold ones_for. destruct (existsb (nmem j) (e_tidx E)); [reflexivity|].
-          destruct (ones_chain j Hj) as [p [k [b [Hp [Hk _]]]]]. rewrite Hp, Hk. reflexivity. }
-      fold onesops. rewrite E_tidx, combine_map_l.
-      change (map (fun t => (t_shape t, data (t_ref t), map lab (t_bids t))) ts ++ onesops) with (ops data lab ts onesops).
-      destruct (ops data lab ts onesops); reflexivity. }
+    exists onesops. split; [exact OF|]. split; [exact OC|].
+    unfold contract_with. unfold shape. rewrite Hvt. cbn [option_map]. rewrite E_tids.
+    rewrite E_out.
+    rewrite (omap_total _ ones_for).
+    2:{ intros j Hj. unfold ones_for. destruct (existsb (nmem j) (e_tidx E)); [reflexivity|].
+        destruct (ones_chain j Hj) as [p [k [b [Hp [Hk _]]]]]. rewrite Hp, Hk. reflexivity. }
+    fold onesops. rewrite E_tidx, combine_map_l.
+    change (map (fun t => (t_shape t, data (t_ref t), map lab (t_bids t))) ts ++ onesops) with (ops data lab ts onesops).
+    destruct (ops data lab ts onesops); reflexivity.
+  Qed.
+
+  Theorem contract_with_correct v am : contract_with E n data = Some (v, am) ->
+      am = amap /\ fst (to_full_tensor v am) = shp /\
+      forall x, in_range shp x -> snd (to_full_tensor v am) x = defining_sum n data x.
+  Proof.
+    intros HC. destruct contract_with_struct as [onesops [OF [OC EC]]].
     rewrite EC in HC. destruct (ops data lab ts onesops) eqn:Eo; [discriminate|]. rewrite <- Eo in HC.
     injection HC as <- <-. split; [reflexivity|]. split.
     - apply (einsum_shape n data W lab lab_inj ts ts_perm vt amap Hvt amap_def onesops OF OC).
     - intros x Hx. apply (einsum_value n data W lab lab_inj ts ts_perm vt amap Hvt amap_def onesops OF OC x Hx).
+  Qed.
+
+  (** numpy.einsum needs at least one operand *)
+  Theorem contract_with_total : ts <> [] \/ t_bids vt <> [] -> contract_with E n data <> None.
+  Proof.
+    intros NE. destruct contract_with_struct as [onesops [OF [OC EC]]]. rewrite EC.
+    destruct (ops data lab ts onesops) eqn:Eo; [|discriminate]. exfalso.
+    unfold ops, targs in Eo. apply app_eq_nil in Eo. destruct Eo as [E1 E2].
+    apply map_eq_nil in E1. destruct NE as [N|N]; [contradiction|].
+    assert (Hb0 : exists b0, In b0 vb) by (destruct vb as [|b0 r]; [contradiction | exists b0; left; reflexivity]).
+    destruct Hb0 as [b0 Hb0].
+    assert (Hj : In (lab b0) out) by (apply (out_spec lab vt); eauto).
+    destruct (OC (lab b0) Hj) as [[t [Ht _]]|[op [Hop _]]]; [subst ts; destruct Ht | rewrite E2 in Hop; destruct Hop].
   Qed.
 End ContractWith.
